@@ -21,6 +21,7 @@ def run(project, rep):
     rep.run(P.p_r8_single_tokenizer, project, rep)
     rep.run(P.p_r10_no_invented_end, project, rep)
     rep.run(P.p_r13_no_exit_from_finally, project, rep)
+    rep.run(P.p_r15_match_patterns_do_not_rebind, project, rep)
     rep.run(P.x_rules, project, rep)
     from .. import rules_header as H
     rep.rule("P-R5", "what reaches the tokenizer is the whole decoded body: parse_header hands the remainder of the source over uncut (H-R1), so stray text after the last end tag is still there to be refused")
